@@ -1663,3 +1663,8 @@ mod test {
         assert_eq!(Some(&server_filter), client.bloom_filter.full_filter());
     }
 }
+
+// verification hook (guard: cfg(kani)); contract harnesses live outside the repository
+#[cfg(kani)]
+#[path = "/verif/kani/ntp_proto/source.rs"]
+mod verif;
